@@ -26,7 +26,7 @@ SPEC = dict(
     assumptions=["git 2.39 is the oracle for reachability of tags and commit contents",
                  "the start version of a step is computed with the rules of C09 from the tags real git lists"],
     required=["histories", "successful_updates", "histories_with_2plus_updates", "tag_checks", "commit_content_checks",
-              "failing_steps", "branch_switches", "no_commit_steps", "final_probe_ok", "scope:default", "scope:global",
+              "failing_steps", "branch_switches", "no_commit_steps", "final_probe_ok", "allow_dirty_steps", "scope:default", "scope:global",
               "scope:branch"],
     anchors=[("config", "_parse_raw_config"), ("cli", "_update_cfg_from_vcs"), ("vcs", "commit"), ("cli", "_update")],
 )
@@ -108,8 +108,10 @@ def run_case(ctx, case):
                 kind = "no-commit"
             elif r < 0.78 and scope == "default":
                 kind = "no-tag"
-            elif r < 0.86:
+            elif r < 0.82:
                 kind = "unrelated-commit"
+            elif r < 0.86:
+                kind = "allow-dirty"
             elif r < 0.93:
                 kind = "new-branch"
             else:
@@ -182,6 +184,12 @@ def run_case(ctx, case):
                 # keep dates non-decreasing: re-plan with the current date
                 exp, why = updates.model_bump(vp, start, fl, date, tdy)
             extra = []
+            if kind == "allow-dirty":
+                # an unconfigured tracked file carries an unstaged local edit; the bump commit must not take it
+                with open(os.path.join(d, "other.txt"), "a") as f:
+                    f.write(f"local edit {step}\n")
+                extra = ["--allow-dirty"]
+                before = harness.snapshot(d)
             if kind == "no-commit":
                 extra = ["--no-commit"]
             elif kind == "no-tag":
@@ -270,8 +278,16 @@ def run_case(ctx, case):
             if not set(shown_files) <= set(proj.file_patterns) or not shown_files:
                 ctx.violation("other:commit_contains_unconfigured_files", f"{shown_files} vs configured "
                               f"{sorted(proj.file_patterns)}", case=case, observed=desc)
-            if git(d, "status", "--porcelain").strip():
-                ctx.violation("other:tree_not_clean_after_commit", git(d, "status", "--porcelain"), case=case, observed=desc)
+            porc = git(d, "status", "--porcelain").strip()
+            if kind == "allow-dirty":
+                ctx.count("allow_dirty_steps")
+                if porc != "M other.txt" and porc != " M other.txt".strip():
+                    ctx.violation("other:unrelated_local_edit_not_left_alone", f"after {args}: status {porc!r}, the local "
+                                  f"edit of other.txt should still be uncommitted", case=case, observed=desc)
+                if "other.txt" in shown_files:
+                    ctx.violation("other:commit_contains_unconfigured_files", f"{shown_files}", case=case, observed=desc)
+            elif porc:
+                ctx.violation("other:tree_not_clean_after_commit", porc, case=case, observed=desc)
             at_head = git(d, "tag", "--points-at", "HEAD").split()
             if kind == "no-tag":
                 if at_head or sorted(tags_after) != sorted(all_tags):
@@ -287,6 +303,8 @@ def run_case(ctx, case):
                 if newest is None or vkey(newest) != vkey(a):
                     ctx.violation("other:newest_tag_is_not_the_new_version", f"newest tag in scope {newest!r}, announced {a!r}",
                                   case=case, observed=desc)
+            if kind == "allow-dirty" and git(d, "status", "--porcelain").strip():
+                git(d, "commit", "-q", "-am", "commit the local edit (user)")
         # final probe: a further update is possible
         if not pending_uncommitted and n_ok and not domain_left:
             ok = False
